@@ -212,6 +212,7 @@ fn run_trial(which: &str, plan: &Plan, cuts: &[Cut], later_depth: u8, st: &mut S
     push_history(&mut s, &plan.hist);
     let before = history_view(&s, &probes);
     let total = *plan.nodes.last().unwrap();
+    let mut any_interrupted = false;
     for c in cuts.iter() {
         set_cut(&mut s, Some(*c));
         s.verif_timer().overrun_cap = Some(OVERSHOOT_BOUND);
@@ -247,6 +248,7 @@ fn run_trial(which: &str, plan: &Plan, cuts: &[Cut], later_depth: u8, st: &mut S
             Ok((_sc, mv)) => {
                 let nodes = s.verif_nodes();
                 let over = s.verif_timer().expired_at.get().map(|at| nodes.saturating_sub(at)).unwrap_or(0);
+                any_interrupted |= s.verif_timer().expired_at.get().is_some();
                 st.maxi("max_nodes_after_deadline", over);
                 if interrupted {
                     st.bump("interrupted_searches");
@@ -306,8 +308,27 @@ fn run_trial(which: &str, plan: &Plan, cuts: &[Cut], later_depth: u8, st: &mut S
     set_cut(&mut s, None);
     s.verif_timer().overrun_cap = None;
     s.verif_timer().hard_cap = Some(total * 8 + 2_000_000);
-    s.verif.tt_returned_deeper = 0;
     let fixed = plan.fixed4;
+    // An earlier search of this trial may have COMPLETED more iterations than the plan (measured on
+    // a fresh engine) says: a first interruption leaves completed entries behind that make the
+    // second search cheaper, so its deadline falls later or not at all. The root entry tells the
+    // deepest completed iteration; a later search shallower than that may rightly answer from it.
+    let mut later_depth = later_depth;
+    {
+        let h = s.verif_hash(&b);
+        let done = s.verif_tt_entries().iter().filter(|e| e.hash_key == h).map(|e| e.depth).max().unwrap_or(0);
+        // the iteration that was in flight when the last deadline fell left entries of its own
+        // depth behind: the later search must not be shallower than that iteration either
+        let in_flight = if any_interrupted { (done + 1).min(plan.d) } else { done.min(plan.d) };
+        if done > plan.d {
+            st.bump("skipped_earlier_search_completed_deeper_than_the_reference");
+            return;
+        }
+        if in_flight > later_depth {
+            later_depth = in_flight;
+            st.bump("later_depth_raised_to_the_iteration_really_in_flight");
+        }
+    }
     let r = {
         let s = &mut s;
         engine_call(|| if fixed { s.verif_search_fixed(&b, later_depth) } else { s.find_best_move(&b, later_depth, None) })
@@ -448,6 +469,20 @@ pub fn spec_for(which: &str, replay: bool) -> Spec<'static> {
 }
 
 fn replay_case(which: &str, c: &J, st: &mut Stats) {
+    if c.str_of("kind") == "depth4" {
+        match Pos::from_fen(&c.str_of("fen")) {
+            Ok(p) => {
+                let mut rs = RefSearch::new(50_000_000, 5_000_000);
+                let l = c.get("cuts").and_then(|h| h.as_arr()).and_then(|a| a.first().map(|x| x.int_of("at") as u64)).unwrap_or(1);
+                match rs.value(&p, 4) {
+                    Ok(want) => depth4_trial(&p, want, 10_000_000, l, st),
+                    Err(_) => st.inconclusive.push("replay: reference over budget".into()),
+                }
+            }
+            Err(_) => st.inconclusive.push("replay: bad fen".into()),
+        }
+        return;
+    }
     if c.str_of("kind") == "deep_history" {
         if let Ok(p) = Pos::from_fen(&c.str_of("fen")) {
             let hist: Vec<Pos> = c.get("history").and_then(|h| h.as_arr()).map(|a| a.iter().filter_map(|x| x.as_str().and_then(|f| Pos::from_fen(f).ok())).collect()).unwrap_or_default();
@@ -775,6 +810,46 @@ fn deep_history_trial(p: &Pos, hist: &[Pos], d: u8, cs: &[Cut], bounds: &[u64], 
 
 // ------------------------------------------------------------------------------ C06: depth 4 part
 
+
+/// One depth-4 trial: iterative search to depth 4 interrupted at node `l`, then ONE fixed depth-4 search.
+fn depth4_trial(p: &Pos, want: Val, total: u64, l: u64, st: &mut Stats) {
+    let b = eng::board_from_pos(p);
+    let mut s = Searcher::new();
+    s.verif_timer().node_limit = Some(l);
+    s.verif_timer().hard_cap = Some(total * 4 + 1_000_000);
+    if engine_call(|| s.find_best_move(&b, 4, None)).is_err() {
+        return;
+    }
+    s.verif_timer().node_limit = None;
+    // the counter is NOT reset: entries the interrupted search completed and stored may
+    // themselves rest on a deeper cached result, which the later search then meets as a
+    // same-depth entry — the whole configuration is outside the quantifier then
+    let r = {
+        let s = &mut s;
+        engine_call(|| s.verif_search_fixed(&b, 4))
+    };
+    st.case(hash64(&(p.key(), 4u8, l)), true);
+    st.bump("depth4_trials");
+    let case = || J::obj(vec![("kind", J::s("depth4")), ("fen", J::s(p.to_fen())), ("depth", J::i(4)), ("cuts", J::Arr(vec![Cut::Node(l).json()])), ("later_depth", J::i(4))]);
+    match r {
+        Err(msg) => st.violation(format!("C06:later-panic:{}:4", p.to_fen()), format!("{}: completed depth-4 search after an interruption at node {} panicked: {}", p.to_fen(), l, msg), case()),
+        Ok((score, _)) => {
+            if s.verif.tt_returned_deeper > 0 {
+                st.bump("excluded_deeper_cached_result_reused");
+                return;
+            }
+            st.bump("depth4_later_searches_judged");
+            if class(score) != want {
+                st.violation(
+                    format!("C06:later-value:{}:4:node {}", p.to_fen(), l),
+                    format!("{}: depth-4 search interrupted at node {}, then a completed fixed depth-4 search reports {} but the minimax value is {}", p.to_fen(), l, score, want.show()),
+                    case(),
+                );
+            }
+        }
+    }
+}
+
 /// Thorough tier: depth-4 interruptions on few-men positions; the later search is ONE fixed-depth
 /// search (hook) and runs in which a deeper cached result was returned are excluded (C05's rule).
 fn c06_depth4(ctx: &Ctx) -> Stats {
@@ -816,37 +891,7 @@ fn c06_depth4(ctx: &Ctx) -> Stats {
             };
             for _ in 0..60 {
                 let l = rng.range(1, total as i64) as u64;
-                let mut s = Searcher::new();
-                s.verif_timer().node_limit = Some(l);
-                s.verif_timer().hard_cap = Some(total * 4 + 1_000_000);
-                if engine_call(|| s.find_best_move(&b, 4, None)).is_err() {
-                    continue;
-                }
-                s.verif_timer().node_limit = None;
-                s.verif.tt_returned_deeper = 0;
-                let r = {
-                    let s = &mut s;
-                    engine_call(|| s.verif_search_fixed(&b, 4))
-                };
-                st.case(hash64(&(p.key(), 4u8, l)), true);
-                st.bump("depth4_trials");
-                match r {
-                    Err(msg) => st.violation(format!("C06:later-panic:{}:4", p.to_fen()), format!("{}: completed depth-4 search after an interruption at node {} panicked: {}", p.to_fen(), l, msg), J::obj(vec![("fen", J::s(p.to_fen())), ("depth", J::i(4)), ("cuts", J::Arr(vec![Cut::Node(l).json()])), ("later_depth", J::i(4))])),
-                    Ok((score, _)) => {
-                        if s.verif.tt_returned_deeper > 0 {
-                            st.bump("excluded_deeper_cached_result_reused");
-                            continue;
-                        }
-                        st.bump("depth4_later_searches_judged");
-                        if class(score) != want {
-                            st.violation(
-                                format!("C06:later-value:{}:4:node {}", p.to_fen(), l),
-                                format!("{}: depth-4 search interrupted at node {}, then a completed fixed depth-4 search reports {} but the minimax value is {}", p.to_fen(), l, score, want.show()),
-                                J::obj(vec![("kind", J::s("depth4")), ("fen", J::s(p.to_fen())), ("depth", J::i(4)), ("cuts", J::Arr(vec![Cut::Node(l).json()])), ("later_depth", J::i(4))]),
-                            );
-                        }
-                    }
-                }
+                depth4_trial(&p, want, total, l, &mut st);
             }
         }
         st
